@@ -178,3 +178,26 @@ PROPS["C18"] = e4("TestC18", KQ_RULE + "Oracle: quiescent segments - per-op spec
 MANIFEST_TEXT["C18"] = dict(engine="E4", level_text="Exploration relative to the simulator: exact per-operation event table in quiescent mode, Create-count and alternation invariants in bursts, plus reproduction of the repository's recorded kqueue expectations on every run.",
                             note="trusted: as C17; the specification table in harness/kq/hist_test.go is written from the property statement and the recorded expectations",
                             technique="property-based testing (rapid) of the kqueue backend on a simulated kernel with per-operation specification-table oracle")
+
+
+# additional deterministic / structured parts of the E1 checks
+def _parts(pid, *extra):
+    PROPS[pid]["parts"] = [dict(pkg="props", test=PROPS[pid]["test"])] + list(extra)
+
+
+_parts("C01", dict(pkg="props", test="TestC01Sweep", checks_scale=0.5), dict(pkg="props", test="TestC01Big", single=True))
+PROPS["C01"]["rule"] += ("; plus a name-length sweep (entries of drawn lengths 1..255 incl. every 16k-1/16k/16k+1, multi-byte and non-UTF-8 units, created/written/removed inside plugged bursts so that each is decoded at a "
+                         "different buffer offset) and bursts of 600 (quick) / 2000 (thorough) operations handled in a few reads")
+_parts("C08", dict(pkg="props", test="TestC08Sweep", checks_scale=0.5))
+PROPS["C08"]["rule"] += "; plus the name-length sweep of C01 with the Add argument drawn from 8 spellings (relative, ./, trailing slashes, absolute, through a symlink, ../r/d0)"
+_parts("C10", dict(pkg="props", test="TestC10Overflow", single=True))
+PROPS["C10"]["rule"] += ("; plus overflow bursts (reader parked, max_queued_events + delta alternating attribute changes, delta from the seed; 1 burst quick / 10 thorough): ErrEventOverflow must arrive on Errors and nothing else, "
+                         "then the exact oracle applies again to new operations and Add/Remove of a fresh directory must work")
+_parts("C11", dict(pkg="props", test="TestC11Threads", checks_scale=0.25))
+PROPS["C11"]["rule"] += ("; plus threaded mode: 2-8 goroutines each moving its own uniquely named file 3-25 times between two watched directories and an unwatched one; every Create is paired by name with the move that produced it "
+                         "(old name iff the source was covered)")
+_parts("C04", dict(pkg="props", test="TestC04Exhaustive", enumerated=True))
+PROPS["C04"]["rule"] += ("; plus bounded-exhaustive enumeration: all sequences up to length 2 (quick) / 3 (thorough, split over the shards) over an alphabet of 28 symbols (Add and Remove of file, dir, symlink to each, hard link, second file, "
+                         "missing path, path through a file, symlink loop, 300-byte name; 8 filesystem mutations), WatchList after every step, spelling chosen per occurrence from 7 forms, final probe for duplicate events")
+_parts("C12", dict(pkg="props", test="TestC12Soak", single=True))
+PROPS["C12"]["rule"] += "; plus a soak of 150 (quick) / 2000 (thorough) add/hard-link/delete/recreate/re-add/remove cycles on one Watcher with the kernel-mark comparison after every cycle"
